@@ -20,27 +20,46 @@ GERR = {"attr_unknown": "EAttrUnknown", "attr_notpkey": "EAttrNotPkey", "type_un
 # ---------------------------------------------------------------------------------------
 # A. foreign-key schemas
 # ---------------------------------------------------------------------------------------
-def tname(i):
+def tname(i, naming=0):
+    if naming == 1:       # every unknown type name is a substring of the known ones
+        return f"T{i}x" if i < 6 else "T"
     return f"T{i}x"
 
 
-def aname(i, a):
+def aname(i, a, naming=0):
+    """naming 1: the names that are NOT (part of) the primary key are substrings / prefixes of
+    the names that are, so that a comparison by containment instead of equality shows"""
+    if naming == 1:
+        return {0: f"k{i}_id", 1: f"k{i}_id_b", 2: "id"}.get(a, f"k{i}")
     return f"t{i}a{a}"
+
+
+def anames(sch, i):
+    """attribute numbering -> names of type i under the naming of the schema"""
+    nm = sch.get("naming", 0)
+    if nm == 1 and sch["types"][i] == "single":
+        return lambda a: {0: f"k{i}_id", 1: "id"}.get(a, f"k{i}")
+    return lambda a: aname(i, a, nm)
 
 
 def fk_schema_to_raw(sch):
     """sch = {"types": [("single"|"tuple")...], "fks": [(from, attr, to, toattr)]}
     attribute numbering: single: attrs [0,1], pkey [0]; tuple: attrs [0,1,2], pkey [0,1]"""
     raw = {}
+    nm = sch.get("naming", 0)
+    tn = lambda i: tname(i, nm)
     for i, kind in enumerate(sch["types"]):
         nattrs = 2 if kind == "single" else 3
-        pk = aname(i, 0) if kind == "single" else (aname(i, 0), aname(i, 1))
-        raw[tname(i)] = {"HERMES_ATTRIBUTES": {aname(i, a) for a in range(nattrs)},
+        an = anames(sch, i)
+        pk = an(0) if kind == "single" else (an(0), an(1))
+        raw[tn(i)] = {"HERMES_ATTRIBUTES": {an(a) for a in range(nattrs)},
                          "SECRETS_ATTRIBUTES": set(), "CACHEONLY_ATTRIBUTES": set(),
                          "LOCAL_ATTRIBUTES": set(), "PRIMARYKEY_ATTRIBUTE": pk,
                          "FOREIGN_KEYS": {}, "TOSTRING": None}
+    n = len(sch["types"])
     for (f, a, t, ta) in sch["fks"]:
-        raw[tname(f)]["FOREIGN_KEYS"][aname(f, a)] = [tname(t), aname(t, ta)]
+        toattr = anames(sch, t)(ta) if t < n else aname(t, ta, nm)
+        raw[tn(f)]["FOREIGN_KEYS"][anames(sch, f)(a)] = [tn(t), toattr]
     return raw
 
 
@@ -69,7 +88,7 @@ def classify_fk_errors(msg, sch):
         else:
             kinds.append("other")
         # the message must name an FK that was really declared
-        declared = {(tname(f), aname(f, a)) for (f, a, t, ta) in sch["fks"]}
+        declared = {(tname(f), anames(sch, f)(a)) for (f, a, t, ta) in sch["fks"]}
         if (obj, attr) not in declared:
             names_ok = False
     return kinds, names_ok
